@@ -10,6 +10,7 @@ import (
 	"os"
 	"os/exec"
 	"path/filepath"
+	"sort"
 	"strconv"
 	"strings"
 
@@ -100,14 +101,19 @@ func c02DiskRel(name string) string {
 	return p
 }
 
-func c02History(line string) string {
+// c02History plays a notification history; with analysed = true (leg c02.analysed) every state cell of an open
+// document also carries what the server ANALYSES for it: `<cached text hex>/<sorted outline names joined by +>`
+// (textDocument/documentSymbol of the real handler: the names of the top-level `NAME = 1` lines of the text the
+// last analysis ran on - the client's buffer, not the file on disk)
+func c02History(line string) string { return c02HistoryObs(line, false) }
+
+func c02HistoryObs(line string, analysed bool) string {
 	root, err := os.MkdirTemp("", "verif-c02-")
 	if err != nil {
 		panic(err)
 	}
 	defer os.RemoveAll(root)
 	root, _ = filepath.EvalSymlinks(root)
-	srv := langserver.VerifC02NewServer(root)
 	ctx := context.Background()
 	toks := strings.Fields(line)
 	names := c02Names
@@ -118,6 +124,21 @@ func c02History(line string) string {
 		}
 		toks = toks[1:]
 	}
+	if analysed {
+		// the workspace exists before the server starts: a document whose first didOpen is a note O (the editor opens
+		// the file) is on disk with that text; one whose first didOpen is a note P has no file yet
+		seen := map[int]bool{}
+		for _, tok := range toks {
+			if d := int(tok[1] - '0'); (tok[0] == 'O' || tok[0] == 'P') && !seen[d] && d < len(names) {
+				seen[d] = true
+				if rel := c02DiskRel(names[d]); rel != "" && tok[0] == 'O' {
+					os.MkdirAll(filepath.Dir(root+"/"+rel), 0o755)
+					os.WriteFile(root+"/"+rel, []byte(c02Cps(tok[3:])), 0o644)
+				}
+			}
+		}
+	}
+	srv := langserver.VerifC02NewServer(root)
 	// the URI exactly as the client spells it: file://<root>/<name>
 	uri := func(d int) lsp.DocumentURI { return lsp.DocumentURI("file://" + root + "/" + names[d]) }
 	write := func(d int, text string) {
@@ -134,6 +155,18 @@ func c02History(line string) string {
 			b, ok := srv.VerifC02CachedText(string(uri(d)))
 			if !ok {
 				parts = append(parts, "~")
+			} else if analysed {
+				syms, _ := srv.TextDocumentSymbol(ctx, lsp.DocumentSymbolParams{TextDocument: lsp.TextDocumentIdentifier{URI: uri(d)}})
+				var ns []string
+				for _, sy := range syms {
+					ns = append(ns, sy.Name)
+				}
+				sort.Strings(ns)
+				n := "-"
+				if len(ns) > 0 {
+					n = strings.Join(ns, "+")
+				}
+				parts = append(parts, hx(b)+"/"+n)
 			} else {
 				parts = append(parts, hx(b))
 			}
@@ -152,6 +185,10 @@ func c02History(line string) string {
 			text := c02Cps(tok[3:])
 			write(d, text) // the client opens what is on disk
 			srv.TextDocumentDidOpen(ctx, lsp.DidOpenTextDocumentParams{TextDocument: lsp.TextDocumentItem{URI: uri(d), Text: text}})
+		case 'P':
+			// didOpen WITHOUT touching the disk: the editor restores an unsaved buffer (hot exit), or the file was
+			// changed behind its back - the text of the notification is not the text of the file
+			srv.TextDocumentDidOpen(ctx, lsp.DidOpenTextDocumentParams{TextDocument: lsp.TextDocumentItem{URI: uri(d), Text: c02Cps(tok[3:])}})
 		case 'C':
 			srv.TextDocumentDidChange(ctx, lsp.DidChangeTextDocumentParams{
 				TextDocument:   lsp.VersionedTextDocumentIdentifier{TextDocumentIdentifier: lsp.TextDocumentIdentifier{URI: uri(d)}},
@@ -162,6 +199,12 @@ func c02History(line string) string {
 				text := c02Cps(tok[3:])
 				write(d, text) // saving writes the file, then the notification is sent
 				p.Text = &text
+			} else if analysed {
+				// a save without text: the editor has written its buffer all the same; the harness does not know the
+				// client's text, it writes what the server holds (equal to it on conformant histories: C02_uri_sync_fixed)
+				if b, ok := srv.VerifC02CachedText(string(uri(d))); ok {
+					write(d, string(b))
+				}
 			}
 			srv.TextDocumentDidSave(ctx, p)
 		case 'X':
@@ -218,6 +261,8 @@ func init() {
 	// case: notifications separated by blanks, texts as code points
 	register("c02.history", c02History)
 	register("c02.history_bad", c02History)
+	// the same histories format; documents are lines `NAME = 1`; observable: cache AND outline names per open document
+	register("c02.analysed", func(line string) string { return c02HistoryObs(line, true) })
 	// case: a URI in hex; answer: pathpre.VscodeURIToString of it, in hex.
 	// c02.uri: preFixStr = "file://" (what InitialRootURIAndPath sets for a root URI file://<rootPath>, the Unix case);
 	// c02.uri3: preFixStr = "file:///" (the initial value, kept for file:///c%3A/... roots). The variable is a package
